@@ -303,10 +303,11 @@ func runKM4(c *Ctx, s *Sink) {
 
 func init() {
 	register(&Rule{
-		ID: "KM-5", Props: []string{"C19"}, Min: 1,
+		ID: "KM-5", Props: []string{"C19", "C20"}, Min: 2,
 		Doc: `the k-mer mask is built without overflowing when the k-mer fills the word: in NewKmerMap every LeftShift of the constant one by an amount 2·kmersize + c (kmersize is bounded only
 by the word width: 32 symbols in Uint64, 64 in Uint128 — the range the property quantifies over) has c < 0; (1 << 2k) − 1 shifts the one out of the word for the largest k, the mask becomes 0 − 1
-and the fixed-precision Sub panics.`,
+and the fixed-precision Sub panics; and every unsigned shift amount computed by a subtraction (2k − 1, k − 1 − sparseAt) is proved non-negative on every path reaching it (paths ended by
+Fatal/Panic excluded; the parity adjustments k++ / k-- are followed): for k = 0 the amount wraps to 2^64 − 1.`,
 		Run: runKM5,
 	})
 }
@@ -365,6 +366,83 @@ func runKM5(c *Ctx, s *Sink) {
 		}
 		return true
 	})
+	// (2) no shift amount wraps below zero: the amounts are unsigned, 2k − 1 for k = 0 is 2^64 − 1
+	key2 := "pkg/obikmer.NewKmerMap:shift-amounts-do-not-wrap"
+	env := &linEnv{info: info, vars: map[types.Object]linForm{}, defs: map[types.Object][]ast.Expr{}, atoms: map[string]bool{}, lens: map[string]bool{}, elems: map[string]linForm{}}
+	start := linPath{env: env}
+	if kf, ok := env.form(ast.NewIdent(kobj.Name()), 0); ok {
+		_ = kf
+	}
+	nShift, wrap := 0, ""
+	var wrapPos token.Pos
+	seen := map[token.Pos]bool{}
+	linWalk([]linPath{start}, fd.Body.List, func(pth linPath, st ast.Stmt) {
+		if _, ok := st.(*ast.ForStmt); ok {
+			return
+		}
+		ast.Inspect(st, func(nd ast.Node) bool {
+			if _, ok := nd.(*ast.FuncLit); ok {
+				return false
+			}
+			call, ok := nd.(*ast.CallExpr)
+			if !ok || len(call.Args) != 1 {
+				return true
+			}
+			sel, ok := call.Fun.(*ast.SelectorExpr)
+			if !ok || (sel.Sel.Name != "LeftShift" && sel.Sel.Name != "RightShift") {
+				return true
+			}
+			hasSub := false
+			ast.Inspect(call.Args[0], func(m ast.Node) bool {
+				if b, ok := m.(*ast.BinaryExpr); ok && b.Op == token.SUB {
+					hasSub = true
+				}
+				return true
+			})
+			if !hasSub {
+				// a variable defined by a subtraction
+				if id, ok := ast.Unparen(call.Args[0]).(*ast.Ident); ok {
+					for _, d := range defs[info.ObjectOf(id)] {
+						if d != nil {
+							ast.Inspect(d, func(m ast.Node) bool {
+								if b, ok := m.(*ast.BinaryExpr); ok && b.Op == token.SUB {
+									hasSub = true
+								}
+								return true
+							})
+						}
+					}
+				}
+			}
+			if !hasSub {
+				return true
+			}
+			if !seen[call.Pos()] {
+				seen[call.Pos()] = true
+				nShift++
+			}
+			pth.env.cur = pth.sys
+			f, ok := pth.env.form(call.Args[0], 0)
+			kn := pth.known()
+			// the unsigned parameter is not negative
+			if kfm, ok2 := pth.env.form(ast.NewIdent("\x00"), 0); ok2 {
+				_ = kfm
+			}
+			if !ok || !kn.entails(linLE(lfConst(0), f)) {
+				wrap = fmt.Sprintf("%s: %s(%s)", c.Pos(call.Pos()), sel.Sel.Name, types.ExprString(call.Args[0]))
+				wrapPos = call.Pos()
+			}
+			return true
+		})
+	})
+	switch {
+	case wrap != "":
+		s.Fail(nil, key2, wrapPos, "an unsigned shift amount computed by a subtraction is not proved non-negative on every path ("+wrap+"): for a k-mer size of 0 — reached by -k 0, and by -k 1 which the parity adjustment decrements — 2k − 1 wraps to 2^64 − 1, the shift empties the word and the fixed-precision Sub(1) panics (obikmersimcount -k 1: Uint128 underflow at Sub({0 0}, {0 1}), exit status 2) instead of refusing the size")
+	case nShift == 0:
+		s.Pass(nil, key2, fd.Pos(), "no shift amount is computed by a subtraction")
+	default:
+		s.Pass(nil, key2, fd.Pos(), fmt.Sprintf("%d shift amount(s) computed by a subtraction, each >= 0 on every path (Fourier–Motzkin)", nShift))
+	}
 	switch {
 	case len(bad) > 0:
 		s.Fail(nil, key, fd.Pos(), "the k-mer mask shifts the constant one by the full width of the word when the k-mer fills it (k = 32 in Uint64, 64 in Uint128): "+strings.Join(bad, "; ")+" — the shift yields 0 and the following Sub(1) panics (underflow) instead of producing the all-ones mask")
